@@ -307,7 +307,7 @@ let () =
     hbuf := [])
 
 (* ---------------- lock discipline (coq/Lockset.v) ---------------- *)
-let kbuf : (int * string * M.lev option) list ref = ref []
+let lkbuf : (int * string * M.lev option) list ref = ref []
 
 let lev_of (a : string list) : M.lev option =
   match a with
@@ -320,10 +320,10 @@ let lev_of (a : string list) : M.lev option =
   | _ -> None
 
 let () =
-  register "LOCK" (fun _ _ a -> (match a with t :: o :: _ -> tag := t ^ " " ^ o | t :: _ -> tag := t | _ -> ()); kbuf := []);
-  register "k" (fun ln line a -> kbuf := (ln, line, lev_of a) :: !kbuf);
+  register "LOCK" (fun _ _ a -> (match a with t :: o :: _ -> tag := t ^ " " ^ o | t :: _ -> tag := t | _ -> ()); lkbuf := []);
+  register "lk" (fun ln line a -> lkbuf := (ln, line, lev_of a) :: !lkbuf);
   register "ENDLOCK" (fun ln line _ ->
-    let evs = List.rev !kbuf in
+    let evs = List.rev !lkbuf in
     incr checked;
     (match List.find_opt (fun (_, _, r) -> r = None) evs with
      | Some (l, s, _) -> mismatch l s ("slice lock " ^ !tag ^ ": access outside the guard table / with no guard")
@@ -335,4 +335,4 @@ let () =
           let k = int_of_nat i in
           let (l, s, _) = List.nth evs k in
           mismatch l s (Printf.sprintf "slice lock %s: event %d breaks the lock discipline (a write without the lock held exclusively, a read without it held)" !tag k)));
-    kbuf := [])
+    lkbuf := [])
